@@ -142,6 +142,21 @@ def condOf {F : Type} [FloatLike F] (inner : List (List Float)) : Float × Float
     | some e => (acc.1 + e.meanAbs, fmax acc.2 (if e.n < 2 || e.varNum == 0 then 0.0 else e.kappa))
     | none => (1.0 / 0.0, acc.2)) (0.0, 0.0)
 
+/-- rounding allowance for the standard-deviation part of a half-width: the one-pass variance has an
+    absolute error of a few u·Σy²/(n−1), the standard deviation inherits min(ε/s, √ε); summed over
+    the samples as Σ sdTol_i/√n_i -/
+def sdAllow {F : Type} [FloatLike F] (inner : List (List Float)) : Float :=
+  inner.foldl (fun acc ys =>
+    match exactStats ys with
+    | some e =>
+      if e.n < 2 then acc else
+      let nn := Float.ofNat e.n
+      let epsV := 16.0 * FloatLike.u F * e.sumSqF / (nn - 1.0)
+      let sd := e.variance.sqrt
+      let t := if sd > 0.0 && epsV / sd < epsV.sqrt then epsV / sd else epsV.sqrt
+      acc + t / nn.sqrt
+    | none => 1.0 / 0.0) 0.0
+
 /-- multiply an encoded float by 2^e in its own type -/
 def scaleTok (e : Int) (t : String) : String :=
   match parseF64? t with
@@ -185,8 +200,18 @@ def xfOp {F : Type} [FloatLike F] [Widen F Float] (args : List String) : Option 
     run := fun crit impl =>
       let model := joinBar [p1.eval crit, p2.eval crit]
       let u := FloatLike.u F
+      -- the relations are claimed away from overflow and underflow only
+      let tiny : Float := if FloatLike.tag F == "g" then Float.scaleB 1.0 (-118) else Float.scaleB 1.0 (-1000)
+      let outOfRange (g : List String) : Bool :=
+        match numInterval g with
+        | some (_, lo, hi) =>
+          [lo, hi].any fun
+            | some x => !x.isFinite || (x != 0.0 && x.abs < tiny)
+            | none => false
+        | none => false
       let cs := match impl with
         | [a, b] =>
+          if outOfRange a || outOfRange b then [] else
           match xform with
           | "scale" =>
             (match param.toInt? with
@@ -217,22 +242,24 @@ def xfOp {F : Type} [FloatLike F] [Widen F Float] (args : List String) : Option 
           | "shift" =>
             (match (Codec.dec param : Option F) with
              | some d =>
-               let (m1, k1) := condOf (F := F) p1.inner
-               let (m2, k2) := condOf (F := F) p2.inner
+               let (m1, _) := condOf (F := F) p1.inner
+               let (m2, _) := condOf (F := F) p2.inner
                let hw := fmax (p1.halfWidth crit) (p2.halfWidth crit)
-               let tol := 32.0 * u * (m1 + m2 + hw * (1.0 + k1 + k2)) + Float.scaleB 1.0 (-1060)
-               if !(fmax k1 k2 * u ≤ Float.scaleB 1.0 (-10)) then [] else
+               let c1 := p1.critVal crit
+               let cAbs := if c1.isNaN then 0.0 else c1.abs
+               let tol := 32.0 * u * (m1 + m2 + hw) + cAbs * (sdAllow (F := F) p1.inner + sdAllow (F := F) p2.inner) +
+                 Float.scaleB 1.0 (-1060)
                if boundsClose tol (FloatLike.toF64 d) a b then [] else [s!"shifted-bounds-off(tol {tol})"]
              | none => ["bad-shift"])
           | "perm" =>
-            let (m1, k1) := condOf (F := F) p1.inner
+            let (m1, _) := condOf (F := F) p1.inner
             let hw := fmax (p1.halfWidth crit) (p2.halfWidth crit)
             -- the external quantile is only as smooth as its own accuracy: a dof that moved by a
             -- rounding error may move the critical value by more than a rounding error
             let c1 := p1.critVal crit; let c2 := p2.critVal crit
             let jitter := if c1.isNaN || c2.isNaN || c1 == 0.0 then 0.0 else (c1 - c2).abs / c1.abs * hw
-            let tol := 32.0 * u * (m1 + hw * (1.0 + k1)) + 2.0 * jitter + Float.scaleB 1.0 (-1060)
-            if !(k1 * u ≤ Float.scaleB 1.0 (-10)) then [] else
+            let cAbs := if c1.isNaN then 0.0 else c1.abs
+            let tol := 32.0 * u * (m1 + hw) + 2.0 * cAbs * sdAllow (F := F) p1.inner + 2.0 * jitter + Float.scaleB 1.0 (-1060)
             if boundsClose tol 0.0 a b then [] else [s!"reordered-bounds-off(tol {tol})"]
           | _ => []
         | _ => ["malformed"]
